@@ -58,6 +58,7 @@ type ProcSpec struct {
 	ParamsNotInCmd bool                `json:"params_not_in_cmd,omitempty"` // parameter ports are created with InParam(), used in SetOut only
 	BarrierEnd     []string            `json:"barrier_end,omitempty"`       // members whose key contains one of these wait at the END of their body instead of its start
 	ZeroCores      bool                `json:"zero_cores,omitempty"`        // CoresPerTask = 0: its tasks take no slot
+	LinkOut        bool                `json:"linkout,omitempty"`           // the command makes its output a SYMBOLIC LINK (ln -s <absolute path of a file it wrote elsewhere> out)
 	AppendOut      bool                `json:"appendout,omitempty"`         // the command APPENDS to its output in two steps (echo a >> f; echo b >> f) instead of truncating it
 	DirOut         bool                `json:"dirout,omitempty"`            // the out-port "out" is a DIRECTORY holding two files
 }
